@@ -35,6 +35,7 @@ class Ctx:
         self.tier = tier
         self.seed = seed()
         self.work = Work(prop + "-" + tier)
+        os.environ["VERIF_TMP"] = str(self.work.dir)      # scratch files of the harness (removed with the work directory)
         self.timer = Timer()
         self.states = 0
         self.transitions = 0
@@ -155,6 +156,7 @@ class Ctx:
 
         rej = []
         skipped_before = self.extra.get("out_of_domain_records", 0)
+        raised_skips = []          # ids of records skipped because the library rejected the input
         try:
             with cf.ThreadPoolExecutor(max_workers=shards) as ex:
                 results = list(ex.map(one, range(shards)))
@@ -173,6 +175,8 @@ class Ctx:
                 self.count("out_of_domain_records")
                 d = self.extra.setdefault("out_of_domain_reasons", {})
                 d[m_.group(3)] = d.get(m_.group(3), 0) + 1
+                if m_.group(3) == "raised":
+                    raised_skips.append(m_.group(1))
             m_ = _TOTAL.search(r.out)
             if m_:
                 ok, bad = int(m_.group(1)), int(m_.group(2))
@@ -190,7 +194,16 @@ class Ctx:
         if max_skip_ratio is not None:
             # vacuity guard: a batch the generator built to be inside the property's domain must be judged, not skipped
             sk = self.extra.get("out_of_domain_records", 0) - skipped_before
-            if sk > max_skip_ratio * len(records) + 1:
+            if sk > max_skip_ratio * len(records) + 1 and len(raised_skips) >= 0.9 * sk:
+                # not the generator's doing: the library REJECTED inputs the generator built to be well-formed.  Whatever the
+                # property promises about parsed charts, it promises nothing on a tree that does not parse them (DESIGN 11.5)
+                by_id = {x["id"]: x for x in records}
+                x = by_id.get(raised_skips[0], {})
+                self.violation("well-formed-input-rejected-by-the-library",
+                               {"kind": "rejected-batch", "rejected": len(raised_skips), "of": len(records),
+                                "first_record": {k: v for k, v in x.items() if k in ("id", "raised", "msg", "res", "nl", "ph", "tempo", "text")}},
+                               key="rejected-batch")
+            elif sk > max_skip_ratio * len(records) + 1:
                 raise MachineryError(f"vacuity: {sk} of {len(records)} records of an in-domain batch were judged out of domain "
                                      f"({self.extra.get('out_of_domain_reasons')})")
         return rej
